@@ -170,7 +170,7 @@ def run(ctx):
     record(th.reorder_datums(th.example_stream("external_assets_legacy.json"), rng, "late"), "example:legacy:datums-late")
     for i in range(10 if q else 40):
         record(th.reorder_datums(th.example_stream("external_assets_legacy.json"), rng), f"example:legacy:reordered:{i}")
-    for i in range(200 if q else 2000):
+    for i in range(200 if q else 4000):
         record(th.random_norm_run(rng, i, max_events=5 if q else 8), f"random:{i}")
 
     ctx.note(f"phase recorded runs: {time.time() - t0:.1f}s")
@@ -222,7 +222,7 @@ def run(ctx):
     t0 = time.time()
     # ------------------------------------------------------------------ 6. all recorded executions validated by TLC (in parallel)
     vres = th.run_parallel({
-        "norm": lambda: th.validate_iter("NormalizerTrace", "NormalizerTrace.cfg", traces, SD, ctx.out, tag="C35t", shards=3 if q else 6),
+        "norm": lambda: th.validate_iter("NormalizerTrace", "NormalizerTrace.cfg", traces, SD, ctx.out, tag="C35t", shards=3 if q else 8),
         "backup": lambda: th.validate_iter("BackupTrace", "BackupTrace.cfg", btraces, SD, ctx.out, tag="C35bt"),
     })
     ctx.note(f"phase trace validation: {time.time() - t0:.1f}s")
